@@ -35,7 +35,7 @@ GATES = {
     'check_branch_compatibility': 'C09', 'jira_checks': 'C11', 'check_approvals': 'C04',
     'check_build_status': 'C06',
 }
-PROPS = set(GATES.values()) | {'C02', 'C08'}
+PROPS = set(GATES.values()) | {'C02', 'C08', 'C19'}
 BEFORE_CLONE = ('early_checks', 'handle_comments', 'check_dependencies')
 
 
@@ -57,6 +57,13 @@ def final_step(I, what, wbranches):
                smt.BoolC(passed(I, g)), what)
     # the build gate looked at the very integration branches that are queued / merged
     seen = [e[2] for e in I.ghost['trace'] if e[0] == 'gate' and e[1] == 'check_build_status']
+    # the gate ran AFTER the integration branches were brought up to date and pushed: it judged the commits that
+    # are queued / merged, not the ones before the update
+    kinds = [e[0] if e[0] != 'gate' else 'gate:' + e[1] for e in I.ghost['trace']]
+    last_gate = max([i for i, k in enumerate(kinds) if k == 'gate:check_build_status'], default=-1)
+    last_update = max([i for i, k in enumerate(kinds) if k in ('update_integration_branches', 'push')], default=-1)
+    tagged(I, 'C06', 'the build gate ran after the integration branches were updated and pushed', 'site',
+           smt.BoolC(last_gate > last_update >= 0), what)
     # (compared by value: passing a copy of the list is fine)
     tagged(I, 'C06', 'the build gate examined the integration branches that are %s' % what, 'site',
            I.eq(seen[-1], wbranches) if seen else smt.FALSE, what)
@@ -182,9 +189,19 @@ def ens_outcomes(job, out, G):
     return True
 
 
+def ens_declined_reaches_cleanup(job, out, G):
+    # [C19] once the repository is cloned, a DECLINED pull request always goes through handle_declined_pull_request
+    # (which declines / deletes its integration pull requests and branches): no earlier exit skips it
+    return (job.pull_request.status != 'DECLINED'
+            or not any(e[0] == 'clone' for e in G.trace)
+            or any(e[0] == 'handle_declined_pull_request' for e in G.trace))
+
+
 def contract(env):
     return Contract(HPR, args={'job': 'HJob'}, setup=hpr_setup,
-                    ensures=[('gates_before_queue_or_merge_and_pushes_owned', ens_outcomes)],
+                    ensures=[('gates_before_queue_or_merge_and_pushes_owned', ens_outcomes)] + (
+                        [('declined_pull_request_always_reaches_its_cleanup', ens_declined_reaches_cleanup)]
+                        if env.prop == 'C19' else []),
                     covers=['raise:Queued', 'raise:SuccessMessage'])
 
 
